@@ -115,7 +115,7 @@ func (f *fnState) loadIn(en *env, lv *LV) SV {
 	if strings.HasPrefix(lv.Loc, "@global:") {
 		return f.globalLoad(en, lv)
 	}
-	return f.heapAccess(en, lv.Loc, lv.RootT, nil, lv.Path, nil)
+	return f.heapAccess3(en, lv, nil)
 }
 
 func (f *fnState) load(lv *LV) SV { return f.loadIn(f.cur, lv) }
@@ -213,7 +213,40 @@ func (f *fnState) store(lv *LV, v SV) {
 		f.set(key, SV{Sort: v.Sort, T: v.T})
 		return
 	}
-	f.heapAccess(f.cur, lv.Loc, lv.RootT, nil, lv.Path, &v)
+	f.heapAccess3(f.cur, lv, &v)
+}
+
+// heapAccess3 accesses a heap lvalue, spreading standalone array objects over (ref, idx).
+func (f *fnState) heapAccess3(en *env, lv *LV, st *SV) SV {
+	if at, ok := lv.RootT.Underlying().(*types.Array); ok && !lv.Interior {
+		if len(lv.Path) == 0 {
+			n := int(at.Len())
+			if n > 64 {
+				f.unsupported("whole-array access of large array")
+				return f.freshOf("arr", lv.RootT)
+			}
+			if st != nil {
+				for i := 0; i < n; i++ {
+					el := f.mk(at.Elem(), fmt.Sprintf("(select %s %d)", st.T, i))
+					f.heapAccess2(en, locOff(lv.Loc, fmt.Sprint(i)), at.Elem(), nil, nil, nil, &el)
+				}
+				return *st
+			}
+			arr := zeroValue(lv.RootT).T
+			for i := 0; i < n; i++ {
+				el := f.heapAccess2(en, locOff(lv.Loc, fmt.Sprint(i)), at.Elem(), nil, nil, nil, nil)
+				arr = fmt.Sprintf("(store %s %d %s)", arr, i, el.T)
+			}
+			return f.mk(lv.RootT, f.define("arrv", sortOf(lv.RootT), arr))
+		}
+		pe := lv.Path[0]
+		if pe.Index == "" {
+			f.unsupported("field step on array")
+			return f.freshOf("x", lv.RootT)
+		}
+		return f.heapAccess2(en, locOff(lv.Loc, pe.Index), at.Elem(), nil, nil, lv.Path[1:], st)
+	}
+	return f.heapAccess2(en, lv.Loc, lv.RootT, nil, nil, lv.Path, st)
 }
 
 // heapAccess loads (st == nil) or stores through a heap lvalue.
@@ -251,33 +284,34 @@ func (f *fnState) heapAccess2(en *env, loc string, t types.Type, root types.Type
 		return f.heapAccess2(en, loc, fld.Type(), root, append(append([]string(nil), names...), fld.Name()), path[1:], st)
 	case *types.Array:
 		if root == nil {
-			// standalone array object: elements live in the element map at (ref, idx)
-			if len(path) == 0 {
-				n := int(u.Len())
-				if n > 64 {
-					f.unsupported("whole-array access of large array")
-					return f.freshOf("arr", t)
-				}
-				if st != nil {
-					for i := 0; i < n; i++ {
-						el := f.mk(u.Elem(), fmt.Sprintf("(select %s %d)", st.T, i))
-						f.heapAccess2(en, locOff(loc, fmt.Sprint(i)), u.Elem(), nil, nil, nil, &el)
-					}
-					return *st
-				}
-				arr := zeroValue(t).T
-				for i := 0; i < n; i++ {
-					el := f.heapAccess2(en, locOff(loc, fmt.Sprint(i)), u.Elem(), nil, nil, nil, nil)
-					arr = fmt.Sprintf("(store %s %d %s)", arr, i, el.T)
-				}
-				return f.mk(t, f.define("arrv", sortOf(t), arr))
-			}
-			pe := path[0]
-			if pe.Index == "" {
-				f.unsupported("field step on array")
+			// an array that is an element of a slice / pointee: stored whole in its element map
+			key := elemMapKey(t)
+			vs := sortOf(t)
+			if vs == "" {
+				f.unsupported("array of aggregates")
 				return f.freshOf("x", t)
 			}
-			return f.heapAccess2(en, locOff(loc, pe.Index), u.Elem(), nil, nil, path[1:], st)
+			m := f.heapMapIn(en, key, vs)
+			if len(path) == 0 {
+				if st != nil {
+					f.set(key, SV{Sort: "(Array Loc " + vs + ")", T: f.define(mapName(key), "(Array Loc "+vs+")", fmt.Sprintf("(store %s %s %s)", m, loc, st.T))})
+					return *st
+				}
+				return f.mk(t, fmt.Sprintf("(select %s %s)", m, loc))
+			}
+			pe := path[0]
+			if pe.Index == "" || len(path) > 1 {
+				f.unsupported("path below array element")
+				return f.freshOf("x", t)
+			}
+			if st != nil {
+				nv := fmt.Sprintf("(store (select %s %s) %s %s)", m, loc, pe.Index, st.T)
+				f.set(key, SV{Sort: "(Array Loc " + vs + ")", T: f.define(mapName(key), "(Array Loc "+vs+")", fmt.Sprintf("(store %s %s %s)", m, loc, nv))})
+				return *st
+			}
+			sv := f.mk(u.Elem(), fmt.Sprintf("(select (select %s %s) %s)", m, loc, pe.Index))
+			f.typeFacts(sv)
+			return sv
 		}
 		// array inside a struct: stored whole in the field map
 		key := structFieldMapKey(root, names)
@@ -858,7 +892,7 @@ func (f *fnState) indexAddr(i *ssa.IndexAddr) {
 		f.oblige("SAFE:index", "", f.site(), fmt.Sprintf("(and (<= 0 %s) (< %s (s-len %s)))", idx.T, idx.T, x.T))
 		loc := f.define("eloc", sLoc, locOff(fmt.Sprintf("(s-loc %s)", x.T), idx.T))
 		f.declared["nonnil:"+loc] = true
-		f.vals[i] = SV{Typ: i.Type(), Sort: sLoc, LV: &LV{Loc: loc, RootT: u.Elem(), Avail: fmt.Sprintf("(- (s-len %s) %s)", x.T, idx.T)}}
+		f.vals[i] = SV{Typ: i.Type(), Sort: sLoc, LV: &LV{Loc: loc, RootT: u.Elem(), Interior: true, Avail: fmt.Sprintf("(- (s-len %s) %s)", x.T, idx.T)}}
 	case *types.Pointer:
 		at := u.Elem().Underlying().(*types.Array)
 		lv := f.ptrLV(x, "index").clone()
@@ -867,7 +901,7 @@ func (f *fnState) indexAddr(i *ssa.IndexAddr) {
 		}
 		lv.Path = append(lv.Path, PathElem{Index: idx.T})
 		lv.Avail = fmt.Sprintf("(- %d %s)", at.Len(), idx.T)
-		if lv.Cell == nil && len(lv.Path) == 1 && !strings.HasPrefix(lv.Loc, "@global:") {
+		if lv.Cell == nil && len(lv.Path) == 1 && !lv.Interior && !strings.HasPrefix(lv.Loc, "@global:") {
 			// standalone array object: fold the index into the location
 			lv = &LV{Loc: f.define("eloc", sLoc, locOff(lv.Loc, idx.T)), RootT: at.Elem(), Avail: lv.Avail}
 			f.declared["nonnil:"+lv.Loc] = true
@@ -926,7 +960,7 @@ func (f *fnState) sliceOp(i *ssa.Slice) {
 		} else {
 			mx = n
 		}
-		if lv.Cell != nil || len(lv.Path) != 0 {
+		if lv.Cell != nil || len(lv.Path) != 0 || lv.Interior {
 			f.unsupported("slice of embedded or local array")
 			f.vals[i] = f.freshOf("sl", i.Type())
 			return
